@@ -236,30 +236,32 @@ Inductive scan_out :=
    up to cap(buf): what origData[skip:advance] can reach beyond len(data). *)
 Definition scan (c : csv_cfg) (s : csv_st) (data stale : bytes) (nz : Z) (atEOF : bool)
   : csv_st * scan_out :=
+  (* origData := data, taken before the BOM is skipped; the BOM flag is not touched here *)
   let isbom := negb (st_noBOM s) && prefix_of bom data in
   let data1 := if isbom then zdrop 3 data else data in
   let adv0 := if isbom then 3 else 0 in
-  let s1 := if isbom then mkSt true (st_row s) else s in
   let fuel := S (length data1) in
-  if atEOF && (zlen data1 =? 0) then (s1, ONeed)
+  if atEOF && (zlen data1 =? 0) then (s, ONeed)
   else
-    match skip_lines c atEOF fuel data1 adv0 0 with
-    | SkNeed => (s1, ONeed)
-    | SkFuel => (s1, OFuel)
+    (* skip := advance: the record starts behind the BOM *)
+    match skip_lines c atEOF fuel data1 adv0 adv0 with
+    | SkNeed => (s, ONeed)
+    | SkFuel => (s, OFuel)
     | SkLine line data2 adv skip =>
         match parse_field c atEOF fuel line data2 adv [] false with
-        | PNeed => (s1, ONeed)
-        | PFuel => (s1, OFuel)
+        | PNeed => (s, ONeed)
+        | PFuel => (s, OFuel)
         | PDone adv fields cr =>
-            if (st_row s1 =? 0) && c_header c
-            then (mkSt true (st_row s1 + 1), OHeader adv fields)
+            (* s.noBOMCheck = true: only once a row has been consumed *)
+            if (st_row s =? 0) && c_header c
+            then (mkSt true (st_row s + 1), OHeader adv fields)
             else
-              match slice_cap (data1 ++ stale) nz skip adv with
+              match slice_cap (data ++ stale) nz skip adv with
               | Ok tok =>
                   let tok := ztake (zlen tok - len_newline tok) tok in
                   let tok := if cr then remove_cr tok else tok in
-                  (mkSt true (st_row s1 + 1), ORecord adv tok fields)
-              | _ => (mkSt true (st_row s1 + 1), OPanic)
+                  (mkSt true (st_row s + 1), ORecord adv tok fields)
+              | _ => (mkSt true (st_row s + 1), OPanic)
               end
         end
     end.
@@ -509,9 +511,18 @@ Fixpoint join_enc (sep : Z) (crlf : bool) (fs : list bytes) : bytes :=
   | f :: fs' => enc_field sep crlf f ++ encode_rune sep ++ join_enc sep crlf fs'
   end.
 
-(* Writer.Write(record) with Comma = sep, UseCRLF = crlf *)
+(* a record that is a single empty field *)
+Definition lone_empty (fs : list bytes) : bool :=
+  match fs with [[]] => true | _ => false end.
+
+(* the text of a row: interp.writeCSV writes a lone empty field as two quotes itself (a row
+   csv.Writer would write as an empty line); every other row is Writer.Write(record) with
+   Comma = sep, UseCRLF = crlf *)
+Definition row_text (sep : Z) (crlf : bool) (fs : list bytes) : bytes :=
+  if lone_empty fs then [34; 34] else join_enc sep crlf fs.
+
 Definition write_record (sep : Z) (crlf : bool) (fs : list bytes) : bytes :=
-  join_enc sep crlf fs ++ (if crlf then [13; 10] else [10]).
+  row_text sep crlf fs ++ (if crlf then [13; 10] else [10]).
 
 Definition write_csv (sep : Z) (crlf : bool) (rows : list (list bytes)) : bytes :=
   flat_map (write_record sep crlf) rows.
